@@ -163,6 +163,8 @@ def scalar_value(kind, count, rnd, n=None, form=None):
 
 
 DYN_SETS = [
+    ["JIS8", "U1"],
+    ["String", "JIS8", "Binary"],
     ["U1", "U2", "U4", "U8", "I1", "I2", "I4", "I8", "String"],
     ["U4", "String"],
     ["String", "Binary"],
@@ -218,8 +220,6 @@ def rand_value(t, rnd, n=None):
             if rnd.random() < 0.15:
                 return [1, 2]
             kind = rnd.choice([a for a in allowed if a != "Array"] or ["U1"])
-        if kind == "JIS8":
-            kind = "String"
         v = scalar_value(kind, t[2] if tag == "dyn" else -1, rnd, n=n)
         cnt = t[2] if tag == "dyn" else -1
         del cnt
